@@ -309,8 +309,11 @@ func c10Monitor(s *authSys, ev authEvent, trip int, resp *http.Response, err err
 				}
 			case haveChallenge && setEqual(asked, chal):
 				// fallback after the token server refused the wider request
+			case !haveChallenge && setEqual(asked, reqSet):
+				// the same fallback on the proactive path (remembered challenge + refresh token, no 401 in
+				// this call): the wider request was refused, the required scope alone is asked for
 			default:
-				viol("token-request-scope", fmt.Sprintf("challenge+required+desired = %q + %q + %q (or the challenge scope alone on the fallback)", lastChallenge, ev.Required, ev.Desired), fmt.Sprintf("%q", text))
+				viol("token-request-scope", fmt.Sprintf("challenge+required+desired = %q + %q + %q (or, on the fallback, the challenge scope alone / the required scope alone when no challenge was received in this call)", lastChallenge, ev.Required, ev.Desired), fmt.Sprintf("%q", text))
 			}
 			_ = desired
 		}
